@@ -49,3 +49,6 @@ claim("C11", "Per-block monitor of every stopped consumer: no updates computed o
 claim("C17", "Directed hostile handshake matrix with real proofs (malicious consumer channel ends), honest handshakes, repetition, consumer-side refusals, launches on a "
       "shared connection; standing bijection check of the consumer/client/channel maps after every provider block of every world; which provider set a live chain "
       "adopts is judged per consumer id by the C01 monitor.", "directed hostile workload + standing invariant monitor over the raw store", "2/C17")
+claim("C07", "Ground-truth oracle over generated double-vote and light-client-attack evidence (valid objects plus one mutant per operator named in the statement), "
+      "boundary-call observation of the slash arguments, whole-validator-set equality for non-signers, store-diff emptiness for rejected evidence.",
+      "directed hostile workload with ground-truth oracle + boundary call observer + store-diff monitor", "2/C07")
